@@ -181,9 +181,18 @@ def run(ck):
     def wdir():
         counter[0] += 1
         return os.path.join(ck.workdir, 'r%d' % counter[0])
+    # a configuration that is run with stdin on a terminal and a utmp file of three records in place: the terminal data sources and the library's own
+    # utmp reader (open / fstat / read / close) are then part of the window, and every one of their calls is failed, shortened or answered with EOF in turn
+    def utmp_file(env):
+        rec = bytearray(384)
+        rec[0:2] = (7).to_bytes(2, 'little')                      # ut_type = USER_PROCESS
+        rec[8:8 + 5] = b'pts/9'                                   # ut_line
+        open(os.path.join(env.w, 'utmp'), 'wb').write(bytes(rec) * 3)
+    cfg['file/terminal+utmp'] = '[snoopy]\nmessage_format = %{tty}|%{tty_uid}|%{tty_username}|%{ipaddr}|%{login}|%{cmdline}\nfilter_chain = only_tty\noutput = file:@W@/log\n'
+    cfg_extra = {'file/terminal+utmp': dict(prep=utmp_file, utmp='utmp')}
     # ---- bound 0: traces
     names = list(cfg)
-    traces = pmap(lambda n: one_run(sx, v['h_one'], os.path.join(ck.workdir, 't-' + n.replace('/', '_')), cfg[n], []), names)
+    traces = pmap(lambda n: one_run(sx, v['h_one'], os.path.join(ck.workdir, 't-' + n.replace('/', '_')), cfg[n], [], **cfg_extra.get(n, {})), names)
     jobs = []
     for n, t in zip(names, traces):
         evals += 1
@@ -205,7 +214,7 @@ def run(ck):
     # ---- bound 1: every (position, answer)
     def do(job):
         n, c, dev = job
-        return one_run(sx, v['h_one'], wdir(), cfg[n], opts_for(dev, c))
+        return one_run(sx, v['h_one'], wdir(), cfg[n], opts_for(dev, c), **cfg_extra.get(n, {}))
     res = pmap(do, jobs)
     retry = []
     for job, rep in zip(jobs, res):
@@ -214,7 +223,7 @@ def run(ck):
         b = verdict(rep)
         if b == ['HARNESS:diverged']:
             # the k-th call of this run is not the call the trace saw (run-to-run variation): re-run once, never a verdict
-            rep = one_run(sx, v['h_one'], wdir(), cfg[n], opts_for(dev, c))
+            rep = one_run(sx, v['h_one'], wdir(), cfg[n], opts_for(dev, c), **cfg_extra.get(n, {}))
             b = verdict(rep)
             if b == ['HARNESS:diverged']:
                 diverged[0] += 1
@@ -231,7 +240,7 @@ def run(ck):
             samples.append({'config': n, 'call': c['name'], 'path': c.get('path'), 'deviation': list(dev), 'verdict': b or 'ok'})
     for job in retry:
         n, c, dev = job
-        rep = one_run(sx, v['h_one'], wdir(), cfg[n], opts_for(dev, c), calltimeout=12000, totaltimeout=30000)
+        rep = one_run(sx, v['h_one'], wdir(), cfg[n], opts_for(dev, c), calltimeout=12000, totaltimeout=30000, **cfg_extra.get(n, {}))
         b = verdict(rep)
         if b:
             ck.violation('C03:%s:cfg=%s:call=%s(%s):answer=%s' % ('+'.join(b), n, c['name'], c.get('path', '')[-40:], '%s:%s' % dev),
